@@ -189,7 +189,7 @@ def run_case(spec):
 def check(rep, tier, seed, specs=None, n_override=None):
     quick = tier == 'quick'
     if specs is None:
-        n = n_override or (2500 if quick else 100000)
+        n = n_override or (8000 if quick else 100000)
         specs = [{'seed': common.hash64('c17', 'fixed' if i < n // 2 else seed, i), 'ce3': i % 3 == 0, 'cli': i % (150 if quick else 500) < 2}
                  for i in range(n)]
     results, lost = common.shard_run('c17', specs, timeout_s=1500 if quick else 6 * 3600)
